@@ -1,3 +1,5 @@
+import os
+import sys
 """E3: canonical linear atoms over typed access paths, entailment, and scenario pruning.
 
 A *scenario* is a conjunction of atoms describing the situation a guard must refuse (e.g.
@@ -435,12 +437,73 @@ def edge_atoms(fv, bi):
     return out
 
 
+def _log_name_dependence(fv, assumptions):
+    b = fv.b
+    locals_ = {b.local_name(l) for l in range(b.argc + 1, len(b.local_tys)) if b.local_name(l)}
+    for a in assumptions:
+        syms = []
+        def walk(x):
+            if isinstance(x, (list, tuple)):
+                for y in x:
+                    walk(y)
+            elif isinstance(x, str):
+                syms.append(x)
+        walk(a)
+        for s_ in syms:
+            base = s_.split(".")[0].split("(")[-1].strip("`!? ")
+            if base in locals_:
+                sys.stderr.write(f"NAMEDEP {b.name} :: {base} :: {show(a) if True else a}\n")
+
+
+_IDENT = re.compile(r"^[a-z_][a-z0-9_]*$")
+
+
+def _require_named_symbols(fv, assumptions):
+    """a scenario that speaks about a local variable by its source name needs that variable to exist: if it was
+    renamed the rule table is stale (anchor missing, exit 2) - that must not be reported as a violation"""
+    if not getattr(fv, "keep_names", False):
+        return
+    b = fv.b
+    have = {b.local_name(l) for l in range(1, len(b.local_tys)) if b.local_name(l)}
+    # field names and other symbols the function's own branch conditions speak about (suffix matches)
+    for bi in range(fv.n):
+        if fv.b.cleanup[bi] or fv.b.term(bi).kind != "switch":
+            continue
+        try:
+            eas = edge_atoms(fv, bi)
+        except Exception:
+            continue
+        for tg, at in eas:
+            for tok in re.findall(r"[A-Za-z_][A-Za-z0-9_]*", repr(at)):
+                have.add(tok)
+    for a in assumptions:
+        syms = []
+
+        def walk(x):
+            if isinstance(x, tuple) and len(x) == 2 and x[1] == "spec" and isinstance(x[0], str):
+                syms.append(x[0])
+            elif isinstance(x, (list, tuple)):
+                for y in x:
+                    walk(y)
+        walk(a)
+        for s_ in syms:
+            base = s_.strip("`")
+            base = re.split(r"[.?(\[]", base)[0]
+            if _IDENT.match(base) and base not in have and base not in ("self", "len", "true", "false"):
+                from .facts import Broken
+                raise Broken(f"anchor missing: `{b.name}` has no variable or parameter named `{base}` that the rule's "
+                             f"scenario `{show(a)}` refers to (renamed?): the rule table must be updated, nothing is decided")
+
+
 def scenario_cut(fv, assumptions):
     """edges contradicted by the assumptions.  Fixpoint: once edges are cut, locals whose other
     definitions became unreachable are single-definition again (conditional constants such as
     `let delta = if num == 1 { 1 } else { 2 }`), which may decide further branches."""
     cut = set()
     view = fv
+    if os.environ.get("VERIF_NAMEDEP"):
+        _log_name_dependence(fv, assumptions)
+    _require_named_symbols(fv, assumptions)
     for _ in range(6):
         new = set()
         for bi in range(fv.n):
